@@ -190,26 +190,18 @@ PROVED_TOTAL = ("dora-parser/src/lexer.rs", "dora-parser/src/green.rs", "dora-pa
 
 
 def finding_key(site, family):
-    """Identity of a front-end panic.
-    * input meant to be a VALID program (a `grammar:clean` program of the generator) or a panic inside code that
-      is proved total: one finding per panic SITE  -> oracle:panic:<file>:<fn>
-    * input that is broken on purpose (token mutants, soups, fixed fragments, grammar programs with an injected fault, minimised
-      corpus crashers): the root cause is one per source file — its error-recovery paths assume well-formed input
-      (`unwrap`/`assert`/`expect` on nodes or sema state that are missing after an error). These are reported per FILE
-      -> oracle:panic-on-invalid-input:<file>; the individual sites are listed in the evidence (`panic_table`)."""
+    """Identity of a front-end panic: one finding per panic SITE, named by source file and enclosing function (line
+    numbers shift when a file is edited, names rarely do): oracle:panic:<file>:<[Impl::]fn>[@caller].
+    (Round 1 grouped panics on deliberately broken input per source FILE, because ~30 sites were known and new seeds kept
+    finding more; after the round-2 repairs of /repo — fixes/C06-01 … C06-18 — almost none remain, and a per-file key
+    would hide a regression in a file that still has one listed site.)"""
     fk = enclosing_fn(site)
     file_ = fk.split(":")[0]
-    # (repository files are NOT counted as valid input: many are error tests or need sibling files when analysed alone)
-    if file_ == "dora-parser/src/parser.rs":
-        # parser guards: one finding per (guard, grammar routine that tripped it)
-        return "oracle:panic:" + fk
-    if family == "grammar:clean" or file_ in PROVED_TOTAL:
-        if file_ == "dora-frontend/src/generator/bytecode.rs":
-            # the BytecodeBuilder::emit_* methods all assert the register types of their operands; the generated programs
-            # that trip them (generic structs/enums, code after an infinite loop) trip whichever emit_* comes first
-            return "oracle:panic:" + file_ + ":BytecodeBuilder::emit_*"
-        return "oracle:panic:" + fk
-    return "oracle:panic-on-invalid-input:" + file_
+    if file_ == "dora-frontend/src/generator/bytecode.rs":
+        # the BytecodeBuilder::emit_* methods all assert the register types of their operands; the generated programs
+        # that trip them (generic structs/enums, code after an infinite loop) trip whichever emit_* comes first
+        return "oracle:panic:" + file_ + ":BytecodeBuilder::emit_*"
+    return "oracle:panic:" + fk
 
 
 def read_requests(path):
